@@ -145,6 +145,7 @@ class World:
         row = d.backend.row_at(path)
         n = sum(1 for e in self.entries if e["path"] == path) + 1
         ent = {"path": path, "kind": kind, "inv": d.inv, "tick": d.tick(), "n": n,
+               "vt": round(d.now() - 1_700_000_000.0, 4),
                "status": row["Status"] if row else None,
                "attempt": ((row.get("StepDetails") or {}).get("Attempt", 0) if row else 0),
                "replay_children": bool(row and (row.get("ContextDetails") or {}).get("ReplayChildren")),
@@ -160,6 +161,7 @@ class World:
         if ent is not None:
             ent["exit"] = how
             ent["exit_tick"] = self.d.tick()
+            ent["exit_vt"] = round(self.d.now() - 1_700_000_000.0, 4)
             if returned is not None:
                 ent["returned"] = returned
         self.exits.append({"path": path, "inv": self.d.inv, "tick": self.d.tick(), "how": how,
@@ -169,6 +171,7 @@ class World:
         op_path = path[:-1] if path and path[-1] == "result" else path
         row = self.d.backend.row_at(op_path)
         rec = {"inv": self.d.inv, "tick": self.d.tick(), "path": path, "kind": kind, "r": rendered,
+               "vt": round(self.d.now() - 1_700_000_000.0, 4),
                "row_status": row["Status"] if row else None,
                "thread": core.cur().me().name}
         rec.update(extra)
@@ -327,7 +330,10 @@ class Interp:
                     self.w.parked.append({"inv": self.d.inv, "path": path, "tick": self.d.tick(),
                                           "thread": core.cur().me().name, "op": kind})
             raise
-        self.w.observe(path, "ret", render(v), op=kind)
+        extra = {}
+        if kind in ("parallel", "map"):
+            extra["batch"] = _batch_struct(v)
+        self.w.observe(path, "ret", render(v), op=kind, **extra)
         return v
 
     def _run_op(self, ctx, op, base, counter, item):
@@ -554,6 +560,16 @@ class Interp:
                     return dec(ret["val"])
             return {"r": [render(v) for v in vals]}
         return handle
+
+
+def _batch_struct(v):
+    try:
+        return {"reason": v.completion_reason.value,
+                "items": [{"index": it.index, "status": it.status.value, "result": render(it.result),
+                           "err_type": it.error.type if it.error else None,
+                           "err_msg": it.error.message if it.error else None} for it in v.all]}
+    except Exception as e:  # noqa: BLE001
+        return {"malformed": f"{type(e).__name__}: {e}"}
 
 
 def _check_fn(spec, state, ent):
